@@ -87,6 +87,7 @@ func genCfg(t *rapid.T, tiny bool) Cfg {
 		Flush:    rapid.SampledFrom([]int{150, 300, 1000, 100000}).Draw(t, "flush"),
 		Sync:     rapid.IntRange(0, 3).Draw(t, "sync") == 0,
 	}
+	c.InitMethod = rapid.IntRange(0, 2).Draw(t, "initMethod") == 0
 	return c
 }
 
